@@ -18,8 +18,8 @@ def pattern(n, seed):
 # Generation: random constructor trees, depth <= 3, non-negative displacements, counts/block lengths 0..5.
 # Byte displacements are multiples of the alignment of the old type (what a portable program does), so that the alignment
 # padding "epsilon" of MPI's upper bound can only be non-zero for MPI_Type_create_struct mixing types.
-small = st.integers(0, 5)
-cnt = st.sampled_from([0, 1, 1, 2, 2, 2, 3, 3, 4, 5])
+small = st.sampled_from([0, 1, 1, 1, 2, 2, 2, 3, 3, 4, 5])
+cnt = st.sampled_from([0, 1, 1, 1, 2, 2, 2, 2, 3, 3, 3, 4, 5])
 
 
 def marker_free(t):
@@ -31,13 +31,13 @@ def marker_free(t):
 def trees(draw, d):
     if d <= 0:
         return ["b", draw(st.sampled_from(LEAVES))]
-    kind = draw(st.sampled_from(["contiguous", "vector", "vector", "hvector", "indexed", "indexed", "hindexed", "indexed_block", "hindexed_block",
-                                 "struct", "struct", "resized", "resized", "subarray", "dup"]))
+    kind = draw(st.sampled_from(["contiguous", "vector", "vector", "vector", "hvector", "hvector", "indexed", "indexed", "hindexed", "indexed_block",
+                                 "hindexed_block", "struct", "struct", "resized", "subarray", "dup"]))
     sub_d = d - 1 if draw(st.integers(0, 3)) else 0
     if kind == "struct":
         n = draw(st.integers(0, 4))
         olds = [draw(trees(sub_d if draw(st.booleans()) else 0)) for _ in range(n)]
-        bls = [draw(small) if draw(st.integers(0, 5)) else 0 for _ in range(n)]
+        bls = [draw(small) for _ in range(n)]
         disps = []
         pos = 0
         for o, bl in zip(olds, bls):
@@ -309,7 +309,7 @@ def walk(t):
 class C30(core.Prop):
     id = "C30"
     drivers = ["mpi_interp"]
-    sizes = {"quick": 1200, "thorough": 30000}
+    sizes = {"quick": 1000, "thorough": 30000}
     max_workers = 4
     technique = ("property-based testing (Hypothesis): a type-map calculator (MPI-3.1 4.1) gives size/lb/ub/extent of every node of a random "
                  "constructor tree and the exact set and order of the bytes that a transfer moves; compared with MPI_Type_size/get_extent "
@@ -383,20 +383,28 @@ class C30(core.Prop):
             if sig == "bad-case":
                 raise RuntimeError(msg)
             if res.crash is not None:
-                op = prog[res.crash["i"]]
+                op = prog[res.crash["i"]] if res.crash["i"] >= 0 else {"op": "finalize"}
                 sig = "crash:%s:%s" % (op["op"], op.get("kind", ""))
-                tn = op.get("type") or op.get("stype")
-                j = res.crash["i"]
-                while tn is None and j > 0:          # heap corrupted by an earlier transfer: blame the last operation that used a type
-                    j -= 1
-                    if prog[j]["op"] != "type_create":
-                        tn = prog[j].get("type") or prog[j].get("stype")
-                        op = prog[j] if tn else op
+                ci = res.crash["i"] if res.crash["i"] >= 0 else len(prog)          # < 0: in MPI_Finalize
+                tn = op.get("type") or op.get("stype") if res.crash["i"] >= 0 else None
                 tt = dict(roots).get(tn)
                 if tt is not None and typemap(tt).size == 0 and res.crash["sig"] == 8:
                     sig = "crash:zero-size-type"
-                elif tt is not None:
+                elif tt is not None and data_class(tt, op.get("count", op.get("scount", 1))) != "other":
                     sig = "crash:%s:%s" % (data_class(tt, op.get("count", op.get("scount", 1))), op["op"])
+                else:
+                    # the heap was corrupted earlier: blame a transfer, already executed, of a type with a known wild-write root cause
+                    classes = set()
+                    for j in range(min(ci, len(prog))):
+                        n2 = prog[j].get("type") or prog[j].get("stype")
+                        if prog[j]["op"] != "type_create" and n2 in dict(roots):
+                            classes.add(data_class(dict(roots)[n2], prog[j].get("count", prog[j].get("scount", 1))))
+                    for c in ("dup-of-derived", "next-element-after-last-block"):
+                        if c in classes:
+                            sig = "crash:%s:later" % c
+                            break
+                    else:
+                        sig = "crash:other:%s" % res.crash["op"]
                 msg += " [op %s]" % {k: v for k, v in op.items() if k != "hex"}
             oc.bad(sig, msg + "  types=%s" % trees_)
             return oc
